@@ -352,7 +352,7 @@ Qed.
 
 
 (* ---- tokens ---- *)
-Definition TokS (hi : bool) (tok : token) : Prop :=
+Definition TokS (hi : bool) (tok : Tokenizer.token) : Prop :=
   match tok with
   | TPI _ _ r => SSr r
   | TComment _ r => SSr r
@@ -364,11 +364,11 @@ Definition TokS (hi : bool) (tok : token) : Prop :=
   | TCdata _ r => SSr r
   end.
 
-Lemma token_with_U hi base fl nodes0 ptext :
-  (forall t r c c', U hi base fl nodes0 c -> SSr r -> ptext t r c = Ok c' -> U hi base fl nodes0 c') ->
-  forall tok c c', TokS hi tok -> U hi base fl nodes0 c -> token_with T ptext tok c = Ok c' -> U hi base fl nodes0 c'.
+Lemma token_with_U hi base fl nodes0 ptext tok c c' :
+  (forall t r, tok = TText t r -> SSr r -> ptext t r c = Ok c' -> U hi base fl nodes0 c') ->
+  TokS hi tok -> U hi base fl nodes0 c -> token_with T ptext tok c = Ok c' -> U hi base fl nodes0 c'.
 Proof.
-  intros Hp tok c c' Ht HU H. unfold token_with in H.
+  intros Hp Ht HU H. unfold token_with in H.
   destruct tok as [tgt content r | t r | name value | prefix local start | r ql el prefix local value
                   | e r | t r | t r]; cbn [TokS] in Ht.
   - apply bind_ok in H. destruct H as [c1 [H1 H]]. apply bind_ok in H. destruct H as [[id c2] [H2 H]]. injection H as <-.
@@ -383,7 +383,7 @@ Proof.
   - eapply process_attribute_U; eassumption.
   - apply bind_ok in H. destruct H as [c1 [H1 H]].
     eapply process_element_U; [eapply reset_after_text_U; eassumption|exact Ht|exact H].
-  - eapply Hp; eassumption.
+  - eapply Hp; [reflexivity|exact Ht|exact H].
   - eapply process_cdata_U; eassumption.
 Qed.
 
@@ -454,9 +454,5 @@ Proof.
   destruct (negb _); [|injection H as <-; exact H1].
   apply bind_ok in H. destruct H as [bs [_ H]]. eapply append_text_U; eassumption.
 Qed.
-
-(* ---- what U gives at the end: the map by START and the componentwise map coincide ---- *)
-Lemma below_mS (kk x : N) : (if x <? P then x else x + kk) = (if below x then x else x + kk).
-Proof. reflexivity. Qed.
 
 End Side.
